@@ -46,7 +46,7 @@ func queriesFor(g *rng.R, locus []byte, universe []string, nRandom int) [][]byte
 func sharedBits(a, b []byte) int { return kademlia.DistanceLz(a, b) }
 
 func runC19(r *ev.Run) {
-	r.Rule = "cache states: every state of the C18 BFS (1-byte locus, keys at least as long as the locus) and random 2/4/32-byte-locus states; queries: universe, locus, nil, prefixes of the locus, longer keys, keys agreeing with the locus on every number of bits, random; oracle = brute force over Distance(): ForEach is a permutation in non-decreasing distance, Closest is a minimum, ForEachCloser = all and only nearer entries, ForEachMatching = exact prefix set, DHTNode.ListNodeInfos = n nearest; comparison laws exhaustively for strings of length <=1 (triples) and <=2 (pairs). non-trivial = >=2 entries in >=2 buckets other than the query's own; distinct = (bucket occupancy, query shared-prefix length)"
+	r.Rule = "cache states: every state of the C18 BFS (1-byte locus, keys at least as long as the locus) and random 2/4/32-byte-locus states; queries: universe, locus, nil, prefixes of the locus, longer keys, keys agreeing with the locus on every number of bits, random; oracle = brute force over Distance(): ForEach is a permutation in non-decreasing distance, Closest is a minimum, ForEachCloser = all and only nearer entries, ForEachMatching = exact prefix set, DHTNode.ListNodeInfos = n nearest, the Closer lists of DHTNode.HandleGet/HandlePut = all and only the peers nearer to the key than the node (keys shorter than, as long as and longer than an id); comparison laws exhaustively for strings of length <=1 (triples) and <=2 (pairs). non-trivial = >=2 entries in >=2 buckets other than the query's own; distinct = (bucket occupancy, query shared-prefix length)"
 	r.Assumptions = []string{
 		"ordering is asserted for caches whose entry keys are at least as long as the locus (shorter keys are filed by the locus bits they lack, which has no meaning for a truncated distance); queries may have any length",
 	}
@@ -59,6 +59,12 @@ func runC19(r *ev.Run) {
 		}
 	}
 	g := rng.New(r.Seed, "C19", fmt.Sprint(r.Batch))
+	for i := 0; i < pick(r, 3, 20); i++ {
+		cid := fmt.Sprintf("dhtnode-closer-%d-%d", r.Batch, i)
+		if r.Want(cid) {
+			c19DHTNodeCloser(r, g.Fork(), cid)
+		}
+	}
 	qs1 := queriesFor(g, []byte{locus}, uni, 6)
 	// all 256 one-byte queries too
 	for b := 0; b < 256; b += 3 {
